@@ -10,6 +10,7 @@ import itertools
 
 import numpy as np
 import odl
+import odl.set.sets as SS
 from odl.space.npy_tensors import NumpyTensorSpaceConstWeighting, NumpyTensorSpaceArrayWeighting
 from odl.space.pspace import ProductSpaceConstWeighting, ProductSpaceArrayWeighting
 
@@ -186,7 +187,15 @@ def case(ctx, kind, a=None, b=None, nd=1, n=2, sk=None):
                    odl.CartesianProduct(odl.Integers(), odl.RealNumbers()), odl.IntervalProd(0, 1), odl.IntervalProd(0, 1),
                    odl.IntervalProd([0, 0], [1, 1]), odl.uniform_grid(0, 1, 3), odl.uniform_grid(0, 1, 3),
                    odl.uniform_partition(0, 1, 3), odl.uniform_partition(0, 1, 3, nodes_on_bdry=True),
-                   odl.nonuniform_partition([0.1, 0.5, 0.9], min_pt=0, max_pt=1)]
+                   odl.nonuniform_partition([0.1, 0.5, 0.9], min_pt=0, max_pt=1),
+                   # signed zeros compare equal as numbers
+                   odl.RectGrid([-0.0, 1.0]), odl.RectGrid([0.0, 1.0]), odl.IntervalProd(-0.0, 1), odl.IntervalProd(0.0, 1),
+                   odl.nonuniform_partition([-0.0, 0.5, 1.0]), odl.nonuniform_partition([0.0, 0.5, 1.0]),
+                   SS.SetUnion(odl.RealNumbers(), odl.Strings(3)), SS.SetUnion(odl.Strings(3), odl.RealNumbers()),
+                   SS.SetUnion(odl.RealNumbers(), odl.Strings(4)), SS.SetIntersection(odl.RealNumbers(), odl.Integers()),
+                   SS.SetIntersection(odl.Integers(), odl.RealNumbers()), SS.SetIntersection(odl.RealNumbers(),
+                                                                                            odl.ComplexNumbers()),
+                   SS.FiniteSet(1, 2, 3), SS.FiniteSet(3, 2, 1), SS.FiniteSet(1, 2)]
         n = len(fam)
         eqm = [[bool(fam[i] == fam[j]) for j in range(n)] for i in range(n)]
         for i in range(n):
